@@ -146,7 +146,8 @@ def run(ctx):
         d = roles(ctx, v).deliver
         g = cfg_of(d.node)
         stores = [w for w in attr_writes(d) if w.attr == "_scheduled_sends" and w.op == "subscript"]
-        c.floor("R6", f"scheduled-send store in {d.short}", len(stores), 1)
+        if not c.expect("R6", f"scheduled-send store in {d.short}", len(stores), 1, d, f"{d.short} no longer registers a delayed send under its id: cancel(id) cannot prevent its delivery"):
+            continue
         prev_calls = []
         for x in own_nodes(d.node):
             if isinstance(x, ast.Call) and isinstance(x.func, ast.Name):
